@@ -4,6 +4,7 @@ import (
 	"errors"
 	"flag"
 	"fmt"
+	"io"
 	"math"
 	"reflect"
 	"sort"
@@ -45,6 +46,9 @@ type Decl struct {
 	Def       string   // scalar default, as a token valid for the kind
 	DefList   []string // list default
 	PtrForm   bool     // declare with the XxxPtr(into, ...) form
+	PrePop    bool     // PtrForm only: the caller's variable already holds something when it is declared
+	EnvSep    string   // separator of the names in the EnvVar list ("" = one blank); any white space is legal
+	EnvPad    string   // white space around the EnvVar list
 	NoSBU     bool     // do not supply a SetByUser pointer
 	HideValue bool
 	Desc      string
@@ -102,7 +106,14 @@ func (d *Decl) EnvVarString() string {
 	for i, k := range d.EnvVars {
 		names[i] = envName(k)
 	}
-	return strings.Join(names, " ")
+	sep := d.EnvSep
+	if sep == "" {
+		sep = " "
+	}
+	if len(names) == 0 {
+		return ""
+	}
+	return d.EnvPad + strings.Join(names, sep) + d.EnvPad
 }
 
 // Key identifies the declaration inside its command.
@@ -134,6 +145,12 @@ func (d *Decl) Describe() string {
 	}
 	if d.PtrForm {
 		s += " ptrform"
+		if d.PrePop {
+			s += "(variable pre-populated)"
+		}
+	}
+	if d.EnvSep != "" || d.EnvPad != "" {
+		s += fmt.Sprintf(" envlist=%q", d.EnvVarString())
 	}
 	if d.NoSBU {
 		s += " no-setbyuser"
@@ -169,8 +186,8 @@ func (c CB) String() string {
 	return "absent"
 }
 
-var panicKindNames = []string{"string", "error", "int", "pointer", "slice", "struct"}
-var exitCodes = []int{0, 1, 2, 3, 64, 255}
+var panicKindNames = []string{"string", "error", "int", "pointer", "slice", "struct", "runtime-error"}
+var exitCodes = []int{0, 1, 2, 3, 64, 255, -1, 127, 256, -128}
 
 type CmdDecl struct {
 	Name     string // names separated by blanks, first is the canonical one
@@ -183,6 +200,7 @@ type CmdDecl struct {
 	After    CB
 	Action   CB
 	Subs     []*CmdDecl
+	Policy   *flag.ErrorHandling // set by the command's own initializer (inherited by the sub-commands it declares afterwards)
 
 	Tag string // unique id inside the app: "r", "r.0", "r.0.1": set by Finish
 }
@@ -234,6 +252,9 @@ func (a *AppDecl) Describe() interface{} {
 		if c.LongDesc != "" {
 			m["longdesc"] = c.LongDesc
 		}
+		if c.Policy != nil {
+			m["error_handling_set_by_initializer"] = policyName(*c.Policy)
+		}
 		if len(c.Subs) > 0 {
 			subs := []interface{}{}
 			for _, s := range c.Subs {
@@ -261,6 +282,7 @@ type ProbeSpec struct {
 	BoolResult bool // what IsBoolFlag returns (when present)
 	FailAt     int  // the FailAt-th Set call in the run phase fails (0 = never)
 	FailDecl   int  // the FailDecl-th Set call in the declaration phase fails (0 = never)
+	ErrKind    int  // which error a failing Set returns (see probeErrors)
 	YieldInSet bool // scheduled worlds: a Run-phase Set is a scheduling point (the value type is simulator-owned code)
 }
 
@@ -276,7 +298,7 @@ func (s *ProbeSpec) Describe() string {
 		r += "IsDefault "
 	}
 	if s.FailAt > 0 {
-		r += fmt.Sprintf("SetFailsAtRunCall=%d ", s.FailAt)
+		r += fmt.Sprintf("SetFailsAtRunCall=%d(%T %q) ", s.FailAt, probeErrors[s.ErrKind%len(probeErrors)], probeErrors[s.ErrKind%len(probeErrors)].Error())
 	}
 	if s.FailDecl > 0 {
 		r += fmt.Sprintf("SetFailsAtDeclCall=%d ", s.FailDecl)
@@ -319,6 +341,13 @@ type probeCore struct {
 
 var errProbeSet = errors.New("probe value refuses this token")
 
+type probeErrType struct{ code int }
+
+func (e *probeErrType) Error() string { return "" }
+
+// probeErrors: what a user type may return from Set. Whatever it is, it turns the invocation into a usage error.
+var probeErrors = []error{errProbeSet, flag.ErrHelp, fmt.Errorf("cannot set: %w", flag.ErrHelp), io.EOF, &probeErrType{7}, errors.New("incorrect usage"), errors.New("help requested")}
+
 func (c *probeCore) Set(s string) error {
 	if c.spec.YieldInSet && c.declared && c.inst != nil {
 		if sc := theSched; sc != nil && !raceMode {
@@ -337,7 +366,7 @@ func (c *probeCore) Set(s string) error {
 	if fail {
 		call.Failed = true
 		c.Log = append(c.Log, call)
-		return errProbeSet
+		return probeErrors[c.spec.ErrKind%len(probeErrors)]
 	}
 	c.state = append(c.state, s)
 	c.Log = append(c.Log, call)
@@ -493,6 +522,16 @@ func (inst *Instance) callback(ev string, cb CB, isAction bool, tag string) func
 		}
 		switch cb.Kind {
 		case CBPanic:
+			if cb.PanicKind%len(panicKindNames) == 6 {
+				// a genuine runtime.Error raised by the Go runtime inside user code
+				defer func() {
+					r := recover()
+					p.Raised[ev] = r
+					panic(r)
+				}()
+				var m map[string]int
+				m[ev] = 1
+			}
 			v := inst.panicValue(ev, cb.PanicKind)
 			p.Raised[ev] = v
 			panic(v)
@@ -519,6 +558,9 @@ func Build(app *AppDecl, p *Proc) *Instance {
 
 func (inst *Instance) configure(c *cli.Cmd, d *CmdDecl) {
 	inst.Inits[d.Tag]++
+	if d.Policy != nil {
+		c.ErrorHandling = *d.Policy
+	}
 	c.Spec = d.Spec
 	c.LongDesc = d.LongDesc
 	c.Hidden = d.Hidden
@@ -587,6 +629,7 @@ func (inst *Instance) declare(c *cli.Cmd, cd *CmdDecl, d *Decl) {
 		}
 		if d.PtrForm {
 			v := new(bool)
+			*v = d.PrePop
 			c.BoolPtr(v, prm)
 			bv.ptr = v
 		} else {
@@ -601,6 +644,9 @@ func (inst *Instance) declare(c *cli.Cmd, cd *CmdDecl, d *Decl) {
 		}
 		if d.PtrForm {
 			v := new(string)
+			if d.PrePop {
+				*v = "stale"
+			}
 			c.StringPtr(v, prm)
 			bv.ptr = v
 		} else {
@@ -616,6 +662,9 @@ func (inst *Instance) declare(c *cli.Cmd, cd *CmdDecl, d *Decl) {
 		}
 		if d.PtrForm {
 			v := new(int)
+			if d.PrePop {
+				*v = 99
+			}
 			c.IntPtr(v, prm)
 			bv.ptr = v
 		} else {
@@ -631,6 +680,9 @@ func (inst *Instance) declare(c *cli.Cmd, cd *CmdDecl, d *Decl) {
 		}
 		if d.PtrForm {
 			v := new(float64)
+			if d.PrePop {
+				*v = 9.5
+			}
 			c.Float64Ptr(v, prm)
 			bv.ptr = v
 		} else {
@@ -652,6 +704,9 @@ func (inst *Instance) declare(c *cli.Cmd, cd *CmdDecl, d *Decl) {
 		}
 		if d.PtrForm {
 			v := new([]string)
+			if d.PrePop {
+				*v = []string{"stale"}
+			}
 			c.StringsPtr(v, prm)
 			bv.ptr = v
 		} else {
@@ -673,6 +728,9 @@ func (inst *Instance) declare(c *cli.Cmd, cd *CmdDecl, d *Decl) {
 		}
 		if d.PtrForm {
 			v := new([]int)
+			if d.PrePop {
+				*v = []int{9, 9}
+			}
 			c.IntsPtr(v, prm)
 			bv.ptr = v
 		} else {
@@ -694,6 +752,9 @@ func (inst *Instance) declare(c *cli.Cmd, cd *CmdDecl, d *Decl) {
 		}
 		if d.PtrForm {
 			v := new([]float64)
+			if d.PrePop {
+				*v = []float64{9.5}
+			}
 			c.Floats64Ptr(v, prm)
 			bv.ptr = v
 		} else {
